@@ -572,6 +572,12 @@ func analyzeBounds(p *core.Prog, f *core.Func) []boundsSite {
 					return
 				}
 				if countOfSameBuffer(f, base, e) {
+					// binary.Uvarint / Varint report a failure with a count <= 0 (negative on overflow): the count may be used
+					// as a bound only where it is known positive
+					if !varintCount(f, e) || (n != nil && knownPositive(g, info, n, e)) {
+						return
+					}
+					ok, why = false, "the byte count "+core.ExprStr(e)+" returned by binary.Uvarint can be negative (overlong varint) and is not known to be positive here"
 					return
 				}
 				ok, why = false, "slice bound "+core.ExprStr(e)+" is not bounded by a dominating guard on len("+core.ExprStr(base)+")"
@@ -700,4 +706,48 @@ func countOfSameBuffer(f *core.Func, base, bound ast.Expr) bool {
 		return true
 	})
 	return ok && !bad
+}
+
+// varintCount: the variable receives the byte count of binary.Uvarint / binary.Varint.
+func varintCount(f *core.Func, bound ast.Expr) bool {
+	info := f.Pkg.TypesInfo
+	bo := core.ObjOf(info, bound)
+	found := false
+	ast.Inspect(f.Body, func(n ast.Node) bool {
+		as, ok := n.(*ast.AssignStmt)
+		if !ok || len(as.Rhs) != 1 || len(as.Lhs) != 2 || core.ObjOf(info, as.Lhs[1]) != bo {
+			return true
+		}
+		if c, ok := core.Unparen(as.Rhs[0]).(*ast.CallExpr); ok {
+			if nm := core.CalleeName(info, c); nm == "encoding/binary.Uvarint" || nm == "encoding/binary.Varint" {
+				found = true
+			}
+		}
+		return true
+	})
+	return found
+}
+
+// knownPositive: a fact at n says bound > 0 (bound <= 0 false, bound < 1 false, bound > 0 true, bound >= 1 true).
+func knownPositive(g *core.Graph, info *types.Info, n *core.GNode, bound ast.Expr) bool {
+	bo := core.ObjOf(info, bound)
+	for _, fc := range g.FactsAt(n) {
+		be, ok := core.Unparen(fc.Expr).(*ast.BinaryExpr)
+		if !ok || fc.Tag != nil || core.ObjOf(info, be.X) != bo || !g.FactFresh(fc, n) {
+			continue
+		}
+		c, isC := core.ConstInt(info, be.Y)
+		if !isC {
+			continue
+		}
+		op := be.Op
+		if !fc.Truth {
+			op = map[token.Token]token.Token{token.LSS: token.GEQ, token.GEQ: token.LSS, token.GTR: token.LEQ, token.LEQ: token.GTR, token.EQL: token.NEQ, token.NEQ: token.EQL}[be.Op]
+		}
+		switch {
+		case op == token.GTR && c >= 0, op == token.GEQ && c >= 1:
+			return true
+		}
+	}
+	return false
 }
